@@ -9,17 +9,20 @@
   All statements are for every list / every argument; sortedness is the only hypothesis and is
   used exactly where the source exits a loop early.
 
-  `replace()`: at the argument level (`replace_spec`, `replace_named_only`, `replace_nothing`):
-  the rule built is C01's constructor applied to the recorded arguments with exactly the named
-  parameters overridden.  The recorded arguments are read off the real object by the harness
-  (`query.replace` op); their derivation from the constructor model (`origArgs`, and
-  `construct (origArgs a (construct a)) ≈ construct a`) lives on C01's branch and is not on main yet,
-  so that link is correspondence + oracle here, not a theorem.
+  `replace()`: for the rule `r = construct a` built by C01's constructor model from the arguments `a`,
+  `r.replace(**kw)` is the constructor applied to the recorded arguments `origArgs a r` (C01's model
+  of `_original_rule` + the scalar attributes, tied to the real object by the `rrule.orig` op) with
+  exactly the named parameters overridden (`replace_is_construct_of_recorded_args`,
+  `replace_named_only_orig`), and with no keyword it is `r` itself (`replace_nothing_id`, from
+  C01's `construct_origArgs`; the literal `bysetpos=()` is the one excluded input — stored as `()`,
+  not recorded, rebuilt as `None`: same occurrences, different attribute).  `query.replace` ties
+  this to the code from the ORIGINAL constructor arguments.
 -/
 import DateutilVerif.Proofs.Queries
 import DateutilVerif.Proofs.Islice
 import DateutilVerif.Proofs.QueryStops
 import DateutilVerif.Model.RRuleReplace
+import DateutilVerif.Proofs.RRuleReplaceOrig
 
 namespace C12
 open Queries Py
@@ -136,6 +139,41 @@ theorem replace_named_only (o : RRule.Args) (kw : RRule.Kw) :
 
 /-- `r.replace()` with no keyword re-runs the constructor on the recorded arguments -/
 theorem replace_nothing (o : RRule.Args) : RRule.replaceFrom o {} = RRule.construct o := rfl
+
+/-- **replace = construct (recorded args ⊕ kw)**, the recorded arguments now being derived from the
+    constructor model, not an input: for the rule `r` built from `a`, `r.replace(**kw)` is the
+    constructor applied to `origArgs a r` updated by the named parameters. -/
+theorem replace_is_construct_of_recorded_args (a : RRule.Args) (r : RRule.Rule) (kw : RRule.Kw) :
+    RRule.replace a r kw = RRule.construct (RRule.merge (RRule.origArgs a r) kw) := rfl
+
+/-- `r.replace()` returns a rule equal to `r`, field for field (every argument set except the
+    literal `bysetpos=()`). -/
+theorem replace_nothing_id (a : RRule.Args) (r : RRule.Rule) (h : RRule.construct a = .ok r)
+    (hsp : a.bysetpos ≠ some []) : RRule.replace a r {} = .ok r :=
+  RRule.replace_nothing_id a r h hsp
+
+/-- **differs only in the named parameters**, phrased on the rule: the arguments `r.replace(**kw)`
+    hands to the constructor are those `r.replace()` would hand over (which rebuild `r`, above),
+    except that every keyword passed takes the given value. -/
+theorem replace_named_only_orig (a : RRule.Args) (r : RRule.Rule) (kw : RRule.Kw) :
+    let o := RRule.origArgs a r
+    let m := RRule.merge o kw
+    RRule.replace a r kw = RRule.construct m ∧
+    m.freq = kw.freq.getD o.freq ∧ m.dtstart = kw.dtstart.getD o.dtstart ∧ m.tz = kw.tz.getD o.tz ∧
+    m.interval = kw.interval.getD o.interval ∧ m.wkst = kw.wkst.getD o.wkst ∧ m.count = kw.count.getD o.count ∧
+    m.untilDT = kw.untilDT.getD o.untilDT ∧ m.bysetpos = kw.bysetpos.getD o.bysetpos ∧
+    m.bymonth = kw.bymonth.getD o.bymonth ∧ m.bymonthday = kw.bymonthday.getD o.bymonthday ∧
+    m.byyearday = kw.byyearday.getD o.byyearday ∧ m.byeaster = kw.byeaster.getD o.byeaster ∧
+    m.byweekno = kw.byweekno.getD o.byweekno ∧ m.byweekday = kw.byweekday.getD o.byweekday ∧
+    m.byhour = kw.byhour.getD o.byhour ∧ m.byminute = kw.byminute.getD o.byminute ∧
+    m.bysecond = kw.bysecond.getD o.bysecond :=
+  ⟨rfl, replace_named_only (RRule.origArgs a r) kw⟩
+
+-- a WEEKLY rule without BYDAY does not record its derived weekday: replace(dtstart=…) moves it
+example : (do let a : RRule.Args := { freq := 2, dtstart := ⟨2020, 1, 1, 0, 0, 0, 0⟩ }     -- a Wednesday
+              let r ← RRule.construct a
+              let r' ← RRule.replace a r { dtstart := some ⟨2020, 1, 3, 0, 0, 0, 0⟩ }      -- a Friday
+              pure (r.byweekday, r'.byweekday)) = .ok (some [2], some [4]) := by decide +kernel
 
 -- non-vacuity: a concrete sorted list, both paths, negative indices, slices, early exits
 example : Sorted [0, 3, 6, 9, 12] := by decide
